@@ -96,8 +96,13 @@ func run(c *vf.Ctx) {
 			c.Broken("copy: %v", err)
 			return
 		}
-		if res := g.Run(sr.deepDir, "repack", "-a", "-d", "-f", "-q", "--window=20", "--depth=4095"); !res.OK() {
+		// -A keeps the objects fast-import left unreachable (as loose objects)
+		if res := g.Run(sr.deepDir, "repack", "-A", "-d", "-f", "-q", "--window=20", "--depth=4095"); !res.OK() {
 			c.Broken("repack deep: %s", res)
+			return
+		}
+		if dt, err := packlab.CatFileAll(g, sr.deepDir); err != nil || packlab.Diff(truth, dt) != "" {
+			c.Broken("deep copy of repo %d lost objects: %v %s", i, err, packlab.Diff(truth, dt))
 			return
 		}
 		// several packs + loose: pack the first half of history, then the rest, keep tags/empty blob loose
@@ -232,7 +237,7 @@ func run(c *vf.Ctx) {
 	c.Floor("git index-pack --strict confirmations", c.Counter("git_index_pack_strict"), c.N(15, 200))
 	c.Floor("git verify-pack confirmations", c.Counter("git_verify_pack"), c.N(55, 600))
 	c.Floor("objects compared with git cat-file", c.Counter("objects_compared"), c.N(3000, 40000))
-	c.Floor("delta entries written", c.Counter("delta_entries"), c.N(500, 8000))
+	c.Floor("delta entries written", c.Counter("delta_entries"), c.N(250, 5000))
 	c.Floor("ref-delta packs with deltas", c.Counter("ref_delta_packs"), c.N(5, 60))
 	c.Floor("ofs-delta packs with deltas", c.Counter("ofs_delta_packs"), c.N(5, 60))
 	c.Floor("packs re-using stored deltas (filesystem storage, window>0)", c.Counter("reuse_packs"), c.N(8, 100))
